@@ -114,6 +114,49 @@ def _gaf_schema_of(repo, f, rule):
             extra = [d for d in ds if d is not None and not cols_of(d) and not (isinstance(d, ast.Constant) and d.value is None)]
             if extra:
                 rebound[name] = [norm(d) for d in extra]
+    if rebound:
+        # path-sensitive refinement: a binding counts only when it can still be the variable's value where the record is built
+        # (`x = SENTINEL` in the "not a number" arm of a validation helper, followed by `if x is SENTINEL: return None`)
+        try:
+            from ..paths import enum_paths
+
+            paths = enum_paths(f.node.body, rule=rule, where=f.where())
+        except AnalysisError:
+            paths = None
+        if paths is not None:
+            live = {}
+            for p in paths:
+                if p.term != "return" or not any(x is call for x in ast.walk(p.term_node)) if p.term_node is not None else True:
+                    continue
+                last = {}
+                feasible = True
+                for e in p.events:
+                    if e.kind == "stmt" and isinstance(e.node, ast.Assign) and len(e.node.targets) == 1 and isinstance(e.node.targets[0], ast.Name):
+                        last[e.node.targets[0].id] = e.node.value
+                    elif e.kind == "loop":
+                        for x in ast.walk(e.node):
+                            if isinstance(x, ast.Name) and isinstance(x.ctx, ast.Store):
+                                last.pop(x.id, None)
+                    elif e.kind == "test":
+                        t, pol = e.node, e.pol
+                        while isinstance(t, ast.UnaryOp) and isinstance(t.op, ast.Not):
+                            t, pol = t.operand, not pol
+                        if isinstance(t, ast.Compare) and len(t.ops) == 1 and isinstance(t.left, ast.Name) and t.left.id in last and isinstance(t.ops[0], (ast.Is, ast.IsNot, ast.Eq, ast.NotEq)):
+                            v, c = last[t.left.id], t.comparators[0]
+                            same = norm(v) == norm(c) and isinstance(c, (ast.Name, ast.Constant))
+                            other_const = isinstance(v, ast.Call) and isinstance(v.func, ast.Name) and v.func.id == "int" and (isinstance(c, ast.Name) or (isinstance(c, ast.Constant) and c.value is None)) and isinstance(t.ops[0], (ast.Is, ast.IsNot))
+                            if same or other_const:
+                                truth = isinstance(t.ops[0], (ast.Is, ast.Eq)) == same
+                                if truth != pol:
+                                    feasible = False
+                                    break
+                if not feasible:
+                    continue
+                for name in rebound:
+                    d = last.get(name)
+                    if d is not None and norm(d) in rebound[name]:
+                        live.setdefault(name, []).append(norm(d))
+            rebound = live
     extras = {"tags_attr": param_attr.get("tags", "tags"), "cigar_attr": param_attr.get("cigar", "cigar"), "class": ctor.cls, "fields_var": fields_var, "rebound": rebound, "n_col_vars": len(used), "parser_nf": f}
     return schema, extras
 
